@@ -138,6 +138,30 @@ def oracle(ctx, fams, quick):
     return len(fams) * len(sizes)
 
 
+def expo_screen(ctx, quick):
+    """Exponential behaviour shows at tiny sizes: the SYSTEMATIC product prefix x single-token unit x short suffix at n = 26 units with a 4 s limit
+    (polynomial families take microseconds there; a regex with two ways to read a unit needs 2^26 steps).  Whatever times out is re-measured alone
+    at n = 14..30 and reported when the time doubles per added unit."""
+    sufs = ["", "x", "(", "\n"]
+    prefs = PREFIXES if not quick else [p for p in PREFIXES if p in ("", "[", "[a](", "![a](", "[a](<", "[a](/u \"", "[x]: ", "<a ", "<a b=\"", "*", "`", "[a][", "<http://", "$", "[^", "\\")] + ["![a]("]
+    fams = [(p, u, x) for p in prefs for u in UNIT_TOKENS for x in sufs]
+    os.environ["MISTUNE_SRC"] = common.repo_src()
+    n0 = 26
+    res = worker.run_all([(CFGS[1], build(f, n0), 4.0) for f in fams], workers=12)
+    sus = [f for f, r in zip(fams, res) if r["status"] == "timeout"]
+    ctx.cov["expo_families_screened"] = len(fams)
+    ctx.cov["expo_suspects"] = len(sus)
+    for f in sus[:8]:
+        alone = remeasure_alone(f, CFGS[1], [14, 18, 22, 26, 30], 30.0)
+        pts = [(n, v) for n, v in sorted(alone.items()) if isinstance(v, float) and v > 0.005]
+        to = [n for n, v in alone.items() if v == "timeout"]
+        growth = [b[1] / a[1] for a, b in zip(pts, pts[1:])]
+        if to or (len(growth) >= 2 and min(growth[-2:]) > 6.0):
+            ctx.fail("time:exponential", "pumped input prefix=%r unit=%r suffix=%r: CPU time multiplies per four added units (%s), %s under %s" % (f[0], f[1], f[2], {n: round(v, 3) for n, v in pts}, "timeout at n=%s" % to if to else "no timeout yet", CFGS[1]["name"]),
+                     {"prefix": f[0], "unit": f[1], "suffix": f[2], "config": CFGS[1], "cpu_s": {str(k): v for k, v in alone.items()}})
+    return len(fams)
+
+
 # ---------------------------------------------------------------- deterministic work counter
 OPENERS = [("[![", "](u)](u)"), ("[a ![b ", "](u)](v)"), ("*", "*"), ("**", "**"), ("_", "_"), ("[", "](u)"), ("![", "](u)"), ("<a>", "</a>"), ("[</a>", "](u)"), ("`", "`"), ("~~", "~~"),
            ("==", "=="), ("^", "^"), ("[^", "]"), ("<b>", "</b>"), ("*_", "_*"), ("***", "***"), ("[*", "*](u)"), ("<", ">"), ("\\", ""), ("&", ";"), ("$", "$"), (">!", "!<"), ("[", "]"), ("(", ")"),
@@ -398,8 +422,10 @@ def run(ctx):
     n += indexed_oracle(ctx, q)
     n += include_timing(ctx)
     n += oracle(ctx, fams, q)
+    n += expo_screen(ctx, q)
     if ctx.broken and not ctx.failures:
         ctx.notes.append("search mode entered: " + "; ".join(ctx.broken)[:300])
+        n += expo_screen(ctx, False)
         n += oracle(ctx, FOCUS + families(ctx, 600), False)
     ctx.cov.update({
         "evaluations": n, "distinct_nontrivial": len(set(fams)),
